@@ -207,6 +207,9 @@ func othersBlocked() bool {
 		if strings.Contains(blk, "testing.") && !strings.Contains(blk, "zz_verif") && !strings.Contains(blk, "sipproxy.") {
 			continue // test framework goroutines
 		}
+		if strings.Contains(blk, "faketime.Sleep") {
+			continue // parked on the harness-controlled clock (its poll loop is not progress)
+		}
 		if strings.Contains(head, "[running]") || strings.Contains(head, "[runnable]") {
 			return false
 		}
